@@ -1875,7 +1875,7 @@ impl Prop for C16 {
         Mode::Threads
     }
     fn n_cases(&self, tier: Tier) -> u64 {
-        n_kinds() as u64 * tier.pick(5_000, 150_000)
+        n_kinds() as u64 * tier.pick(30_000, 150_000)
     }
     fn time_cap_s(&self, tier: Tier) -> u64 {
         tier.pick(60, 900)
